@@ -71,10 +71,10 @@ func main() {
 		"into the real profiledb.Default, interleaved with look-ups and with flushes of the real clean-up goroutines " +
 		"(GOMAXPROCS(1), goroutine count observed, so a clean-up is provably before or after the next sync); every " +
 		"look-up and the sync point of every storage request is compared with the Lean model and, independently, with a reference computed from the latest records; " +
-		"restart campaign: the same with a real cache file and databases re-opened on it; protocol campaign: the storage answers according to the " +
+		"restart campaign: the same with a real cache file, databases re-opened on it and full synchronisations whose cache store fails (cache directory moved away: data served, file untouched); all sync times lie on a 250 ms grid, a request for a time off the grid is a violation; protocol campaign: the storage answers according to the " +
 		"sync point it is asked for (changes since t, tombstones, everything for the zero time), fails on demand, the database chooses the sync kind itself after a restart, " +
 		"and the reference is the backend's own state; pipeline campaign: the same backend behind an in-process gRPC server read by the real backendpb.ProfileStorage " +
-		"(wire conversion, rejected devices, sync_time trailer) with uncontrolled clean-ups, oracle only; round-trip campaign: " +
+		"(wire conversion with every setting group varied and checked against an independently written expectation, rejected devices, a rejected junk profile, sync_time trailer in ms, store failures) with uncontrolled clean-ups; its responses are compared with the Lean model of the converter (respOfWire, backendAuth/Rate/Access); round-trip campaign: " +
 		"generated profiles/devices with every field varied through Store/Load; kill campaign: SIGKILL during Store and a reader concurrent with Store; a case is non-trivial when a stale " +
 		"index entry was hit or a clean-up stayed pending across a sync (schedule), or a field is off-default (cache)"
 	m := hlib.StartModel(o.Model, "C14")
@@ -137,27 +137,46 @@ type resp struct {
 	devs  []devRec
 }
 
-// Logical sync times: n > 0 is timeBase+n seconds, 0 is the zero time.
+// Logical sync times: n > 0 is timeBase seconds + n ticks of 250 ms, 0 is the
+// zero time.  Sub-second ticks make every conversion of a sync time on the way
+// (gRPC trailer in milliseconds, cache file in seconds + nanoseconds, request
+// timestamp) matter: rounding to whole seconds moves the synchronisation point
+// over neighbouring backend changes.
 var timeBase int64 = 1700000000
+
+const tick = 250 * time.Millisecond
 
 func timeOf(n int) time.Time {
 	if n == 0 {
 		return time.Time{}
 	}
 
-	return time.Unix(timeBase+int64(n), 0)
+	return time.Unix(timeBase, 0).Add(time.Duration(n) * tick)
 }
 
+// timeNum is the inverse of timeOf; a time between two ticks is reported as
+// the tick before it (the backend then answers with at least what it would
+// answer for the exact time).
 func timeNum(t time.Time) int {
 	if t.IsZero() {
 		return 0
 	}
+	d := t.Sub(time.Unix(timeBase, 0))
+	n := int(d / tick)
+	if d < 0 && d%tick != 0 {
+		n--
+	}
 
-	return int(t.Unix() - timeBase)
+	return n
 }
 
-func pidStr(n int) agd.ProfileID  { return agd.ProfileID(fmt.Sprintf("p%d", n)) }
-func didStr(n int) agd.DeviceID   { return agd.DeviceID(fmt.Sprintf("d%d", n)) }
+// onGrid reports whether t is a time the backend can have sent.
+func onGrid(t time.Time) bool {
+	return t.IsZero() || t.Sub(time.Unix(timeBase, 0))%tick == 0
+}
+
+func pidStr(n int) agd.ProfileID { return agd.ProfileID(fmt.Sprintf("p%d", n)) }
+func didStr(n int) agd.DeviceID  { return agd.DeviceID(fmt.Sprintf("d%d", n)) }
 func humStr(n int) agd.HumanIDLower {
 	if n == 0 {
 		return ""
@@ -241,6 +260,25 @@ func b01(b bool) string {
 	return "0"
 }
 
+// lineNS is the model line of a full synchronisation whose cache store failed.
+func (rs resp) lineNS() string {
+	return "syncns" + strings.TrimPrefix(rs.line(), "sync "+b01(rs.full))
+}
+
+// withoutCacheDir runs f while the directory of the cache file is moved away,
+// so that Storage.Store (renameio: temporary file in the same directory) fails
+// and the cache file itself keeps its content.
+func withoutCacheDir(path string, f func()) {
+	dir := filepath.Dir(path)
+	hlib.Must(os.Rename(dir, dir+".off"))
+	defer func() { hlib.Must(os.Rename(dir+".off", dir)) }()
+	f()
+}
+
+func isStoreError(err error) bool {
+	return err != nil && strings.Contains(err.Error(), "saving cache")
+}
+
 func (rs resp) line() string {
 	var sb strings.Builder
 	fmt.Fprintf(&sb, "sync %s %d %d %d", b01(rs.full), rs.t, len(rs.profs), len(rs.devs))
@@ -272,6 +310,9 @@ type storage struct {
 	fail    bool
 	lastReq time.Time
 	reqs    int
+	// offGrid is set when a request carried a synchronisation point that no
+	// response ever carried.
+	offGrid bool
 }
 
 var errInjected = errors.New("injected storage failure")
@@ -289,6 +330,9 @@ func (s *storage) Profiles(
 ) (*profiledb.StorageProfilesResponse, error) {
 	s.lastReq = req.SyncTime
 	s.reqs++
+	if !onGrid(req.SyncTime) {
+		s.offGrid = true
+	}
 	if s.fail {
 		return nil, errInjected
 	}
@@ -639,11 +683,18 @@ type op struct {
 	full    bool
 	auto    bool
 	failing bool
+	// nostore: the cache store of this synchronisation fails if it is a full one
+	// (sync with a cache file, psync).
+	nostore bool
 }
 
 func (o op) line() string {
 	switch o.kind {
 	case "sync":
+		if o.nostore && o.rs.full {
+			return o.rs.lineNS()
+		}
+
 		return o.rs.line()
 	case "dev", "link", "ded":
 		return fmt.Sprintf("%s %d", o.kind, o.a)
@@ -658,7 +709,7 @@ func (o op) line() string {
 	case "fail":
 		return fmt.Sprintf("fail %d", o.a)
 	case "psync":
-		return fmt.Sprintf("psync seed=%d nmut=%d full=%t auto=%t failing=%t", o.seed, o.nmut, o.full, o.auto, o.failing)
+		return fmt.Sprintf("psync seed=%d nmut=%d full=%t auto=%t failing=%t nostore=%t", o.seed, o.nmut, o.full, o.auto, o.failing, o.nostore)
 	}
 
 	return "bad"
@@ -687,6 +738,7 @@ func (h *harness) runCase(campaign string, ops []op, path string, report bool) (
 	}()
 
 	if path != "none" {
+		hlib.Must(os.MkdirAll(filepath.Dir(path), 0o700))
 		_ = os.Remove(path)
 	}
 	x := newRealDB(path)
@@ -735,12 +787,24 @@ func (h *harness) runCase(campaign string, ops []op, path string, report bool) (
 			if x.pending > 0 {
 				st.pendingAcross = true
 			}
-			req, err := x.sync(o.rs)
-			if err != nil {
+			nostore := o.nostore && o.rs.full && path != "none"
+			var req int
+			var err error
+			if nostore {
+				withoutCacheDir(path, func() { req, err = x.sync(o.rs) })
+				expectedErrs++
+				if !isStoreError(err) {
+					violate("refresh-swallows-store-error", fmt.Sprintf("Refresh returned %v although the cache could not be stored", err))
+				}
+				r.Count(campaign + ":sync-full-store-failed")
+			} else if req, err = x.sync(o.rs); err != nil {
 				violate("refresh-error", fmt.Sprintf("Refresh failed at op %d: %v", i, err))
 			}
+			// The data is the latest synchronised data whether or not the cache
+			// could be written; the cache file is replaced only by a store that
+			// succeeded.
 			ref.apply(o.rs)
-			if o.rs.full {
+			if o.rs.full && !nostore {
 				cacheRef = newReference()
 				cacheRef.apply(o.rs)
 				cacheRef.wf = ref.wf
@@ -782,9 +846,27 @@ func (h *harness) runCase(campaign string, ops []op, path string, report bool) (
 			if !o.auto {
 				force = &o.full
 			}
-			full, req, err := x.refresh(force)
+			var full bool
+			var req int
+			var err error
+			if o.nostore && path != "none" {
+				withoutCacheDir(path, func() { full, req, err = x.refresh(force) })
+			} else {
+				full, req, err = x.refresh(force)
+			}
 			x.st.fail, x.st.serve = false, nil
+			storeFailed := o.nostore && path != "none" && full && !o.failing && served != nil
 			switch {
+			case storeFailed:
+				expectedErrs++
+				if !isStoreError(err) {
+					violate("refresh-swallows-store-error", fmt.Sprintf("Refresh returned %v although the cache could not be stored", err))
+				}
+				served.full = true
+				lines = append(lines, served.lineNS())
+				want = append(want, fmt.Sprintf("ok %d", req))
+				ref = pb.reference()
+				r.Count(campaign + ":sync-full-store-failed")
 			case o.failing:
 				expectedErrs++
 				if err == nil {
@@ -827,6 +909,9 @@ func (h *harness) runCase(campaign string, ops []op, path string, report bool) (
 				violate("refresh-error", fmt.Sprintf("error collector received %d errors, %d storage failures were injected: %v", len(x.ec.errs), expectedErrs, x.ec.errs))
 			}
 			expectedErrs = 0
+			if x.st.offGrid {
+				violate("request-sync-point-never-sent", "a storage request carried a synchronisation point that no response or cache ever carried (the sync time was altered on the way)")
+			}
 			x = newRealDB(path)
 			loaded := cacheRef != nil && o.a == cacheVerOK && len(cacheRef.profs) > 0 && len(cacheRef.devs) > 0
 			if loaded {
@@ -855,6 +940,9 @@ func (h *harness) runCase(campaign string, ops []op, path string, report bool) (
 	x.flush()
 	if len(x.ec.errs) != expectedErrs {
 		violate("refresh-error", fmt.Sprintf("error collector received %d errors, %d storage failures were injected: %v", len(x.ec.errs), expectedErrs, x.ec.errs))
+	}
+	if x.st.offGrid {
+		violate("request-sync-point-never-sent", "a storage request carried a synchronisation point that no response or cache ever carried (the sync time was altered on the way)")
 	}
 	if discarded {
 		r.Count(campaign + ":discarded-early-cleanup")
@@ -1442,7 +1530,7 @@ func (h *harness) genHistory(rng *rand.Rand, campaign string, length, flushBias 
 			if restarts {
 				ops = append(ops, op{kind: "flush"})
 			}
-			ops = append(ops, op{kind: "sync", rs: b.response(rng, full)})
+			ops = append(ops, op{kind: "sync", rs: b.response(rng, full), nostore: restarts && full && rng.IntN(4) == 0})
 			synced = true
 			if full {
 				h.r.Count(campaign + ":sync-full")
@@ -1579,7 +1667,7 @@ func (h *harness) restartCampaign() {
 	if h.o.Thorough() {
 		n = 4000
 	}
-	path := filepath.Join(h.dir, "restart.pb")
+	path := filepath.Join(h.dir, "restart", "cache.pb")
 	shrunk := 0
 	for i := 0; i < n; i++ {
 		ops := h.genHistory(rng, "restart", 8+rng.IntN(25), 100, true)
@@ -1606,6 +1694,9 @@ func (h *harness) genProtocol(rng *rand.Rand, length int, restarts bool) (ops []
 		}
 		if synced && rng.IntN(5) == 0 {
 			o.failing = true
+		}
+		if restarts && rng.IntN(5) == 0 {
+			o.nostore = true
 		}
 
 		return o
@@ -1672,7 +1763,7 @@ func (h *harness) protocolCampaign() {
 	if h.o.Thorough() {
 		n = 15000
 	}
-	path := filepath.Join(h.dir, "protocol.pb")
+	path := filepath.Join(h.dir, "protocol", "cache.pb")
 	shrunk := 0
 	defer func() { timeBase = 1700000000 }()
 	for i := 0; i < n; i++ {
@@ -1697,7 +1788,9 @@ func (h *harness) protocolCampaign() {
 
 // witnessCases replays the Lean counter-example witnesses on the real code.
 func (h *harness) witnessCases() {
-	a := func(id, linked, human int, ded ...int) devRec { return devRec{id: id, linked: linked, human: human, ded: ded, tag: id*10 + linked} }
+	a := func(id, linked, human int, ded ...int) devRec {
+		return devRec{id: id, linked: linked, human: human, ded: ded, tag: id*10 + linked}
+	}
 	// clean-up overtaken by a sync, once per index
 	for _, kind := range []string{"link", "ded", "hum", "dev"} {
 		var ops []op
@@ -2142,6 +2235,25 @@ func (h *harness) roundTripCampaign() {
 	ctx := context.Background()
 	l := slogutil.NewDiscardLogger()
 	path := filepath.Join(h.dir, "rt.pb")
+	// A custom limiter does not keep the Enabled flag it was built with
+	// (Config() reports true): both come back from the cache as custom limiters.
+	for _, en := range []bool{false, true} {
+		p := profRec{id: 1, devs: []int{1}, tag: 1}.real()
+		p.Ratelimiter = agd.NewDefaultRatelimiter(&agd.RatelimitConfig{RPS: 1, Enabled: en}, respSzEst)
+		c := &profiledb.VerifC14FileCache{SyncTime: timeOf(1), Version: cacheVerOK, Profiles: []*agd.Profile{p}, Devices: []*agd.Device{devRec{id: 1}.real()}}
+		hlib.Must(profiledb.VerifC14StoreCache(ctx, l, path, c, respSzEst))
+		got, err := profiledb.VerifC14LoadCache(ctx, l, path, respSzEst)
+		hlib.Must(err)
+		impl := "default"
+		if _, ok := got.Profiles[0].Ratelimiter.(agd.GlobalRatelimiter); ok {
+			impl = "global"
+		}
+		line := "rtrate " + b01(en)
+		if ans := h.m.Batch([]string{line}); ans[0] != impl {
+			h.r.Disagree("model-vs-filecache", fmt.Sprintf("%q: model %q, implementation %q", line, ans[0], impl), nil)
+		}
+		h.r.Count("cache:ratelimiter-custom-enabled-" + b01(en))
+	}
 	for i := 0; i < n; i++ {
 		np, nd := rng.IntN(3), rng.IntN(4)
 		if rng.IntN(4) != 0 {
